@@ -51,6 +51,7 @@ type c18Node struct {
 }
 
 type c18World struct {
+	reloaded bool // the store was reloaded from the file since the last write (same observable state, different in-memory representation)
 	wd   *world.World
 	adm  *world.Client // poster name "p"
 	adL  *world.Client // poster name of 255 bytes
@@ -177,6 +178,13 @@ func (x *c18World) apply(op string) bool {
 		for _, a := range cat.Arts {
 			a.LinksKnown = false
 		}
+	case "delmissing":
+		// deleting an item that does not exist (a stale client): nothing else may disappear
+		if x.node(path) != nil || len(path) == 0 {
+			return false
+		}
+		x.adm.Req(ref.TDelNewsItem, ref.F(ref.FNewsPath, ref.NewsPathBytes(path...)))
+		world.Quiet()
 	case "delitem":
 		n := x.node(path)
 		if n == nil || len(path) == 0 {
@@ -192,9 +200,12 @@ func (x *c18World) apply(op string) bool {
 		if err := x.wd.Srv.ThreadedNewsMgr.(*mobius.ThreadedNewsYAML).Load(); err != nil {
 			x.fail("reload/news-file-does-not-load", err.Error())
 		}
+		x.reloaded = true
+		return true
 	default:
 		panic(op)
 	}
+	x.reloaded = false
 	return true
 }
 
@@ -355,7 +366,7 @@ func (x *c18World) check() string {
 		}
 		cmp(nil, x.root)
 	}
-	return strings.Join(canon, " | ")
+	return strings.Join(canon, " | ") + fmt.Sprintf(" | reloaded=%v", x.reloaded)
 }
 
 const c18InitialNews = `Categories:
@@ -412,6 +423,7 @@ func c18Alphabet() []string {
 		"reply:C1:1", "reply:C1:2", "reply:B1/C2:1",
 		"delart:C1:1", "delart:C1:2", "delart:C1:3", "delart:B1/C2:1",
 		"delitem:C1", "delitem:B1", "delitem:B1/C2", "delitem:B2",
+		"delmissing:BX/C1", "delmissing:B1/C1", "delmissing:BX/BY/C1", "delmissing:B1/C2", "delmissing:B2/C3",
 		"reload",
 	}
 }
